@@ -98,7 +98,8 @@ func init() {
 			for _, s := range cor {
 				c.san(pid, pol, []byte(s))
 			}
-			for _, bad := range []string{"javascript:alert(1)", "JaVaScRiPt:alert(1)", "data:text/html,x", "vbscript:x", "not a url", " ", "http://ex ample.com/"} {
+			for _, bad := range []string{"javascript:alert(1)", "JaVaScRiPt:alert(1)", "data:text/html,x", "vbscript:x", "not a url", " ", "http://ex ample.com/",
+				"javascript:1/alert(1)", "JavaScript:80/alert(1)", "data:443/text/html,x", "vbscript:8080", "&#106;avascript:65535/x", "/%2Fexample.com/caf\u00e9"} {
 				for _, pos := range [][2]string{{"a", "href"}, {"area", "href"}, {"img", "src"}, {"blockquote", "cite"}, {"q", "cite"}, {"del", "cite"}} {
 					for _, first := range []string{"not a url", "http://example.com/", "", "javascript:x", "/ok"} {
 						c.san(pid, pol, []byte("<"+pos[0]+" "+pos[1]+"=\""+first+"\" "+pos[1]+"=\""+bad+"\">x</"+pos[0]+">"))
@@ -357,6 +358,17 @@ func init() {
 				&bmx.Op{Kind: "AA", Names: []string{"title"}, Re: bmx.NewRE(`^e+$`), Scope: "M", ScopeRe: bmx.NewRE(`^w-.*-x$`)})
 			pid, pol := c.policy(ops)
 			g := bmx.NewDocGen(c.r, ops)
+			// calls that fail part-way (inside open skip-content / dropped elements) come first:
+			// they must leave nothing behind
+			for _, doc := range []string{"a<object>b<b>c", "x<title>unclosed", "<a>1<a>2<object>3", "t<frameset><b>u</b>"} {
+				for fk := 0; fk < 3; fk++ {
+					pol.SanitizeReaderToWriter(strings.NewReader(doc), &faultWriter{failAt: fk})
+					pol.SanitizeReader(&failingReader{data: []byte(doc), failAt: len(doc) - 1 - fk})
+				}
+			}
+			for _, probe := range []string{"p<b>q</b>r", "<p>after</p>"} {
+				fmt.Fprintf(c.w, "after %d %s %s\n", pid, bmx.HexField([]byte(probe)), safeSanitize(pol, []byte(probe)))
+			}
 			inputs := make([][]byte, 16)
 			seq := make([]string, len(inputs))
 			for k := range inputs {
